@@ -135,7 +135,10 @@ def spy_classes():
         # pylint: disable = super-init-not-called
         def __init__(self, sigma0, solution_dim, batch_size=None, seed=None, dtype=np.float64,
                      lower_bounds=-np.inf, upper_bounds=np.inf, *, log, script):
-            self.batch_size = batch_size
+            # the optimizer decides its batch size: it may differ from the one requested (as pycma does with
+            # popsize_factor); the emitter has to read it back from `batch_size`
+            self.requested_batch = batch_size
+            self.batch_size = script.get("actual_batch") or batch_size
             self.solution_dim = solution_dim
             self.dtype = dtype
             self.log = log
@@ -171,11 +174,41 @@ def spy_classes():
         def rank(self, emitter, archive, data, add_info):
             self.log.append(("rk.rank", emitter, archive, {k: np.array(v, copy=True) for k, v in data.items()},
                              {k: np.array(v, copy=True) for k, v in add_info.items()}))
-            return (np.array(self.script["perm"], dtype=np.int64),
-                    np.array(self.script["vals"], dtype=np.float64))
+            out = (np.array(self.script["perm"], dtype=np.int64),
+                   np.array(self.script["vals"], dtype=np.float64))
+            self.log.append(("rk.ret", out[0].copy(), out[1].copy()))
+            return out
 
         def reset(self, emitter, archive):
-            self.log.append(("rk.reset", emitter, archive))
+            self.log.append(("rk.reset", emitter, archive, None, None))
+
+    from ribs.emitters.rankers import RandomDirectionRanker, TwoStageRandomDirectionRanker
+
+    def recording(base):
+        class Rec(base):
+            """the real ranker, recorded; a shadow generator with the same seed predicts every direction draw"""
+
+            def __init__(self, seed=None, *, log, script):
+                super().__init__(seed)
+                self._shadow = np.random.default_rng(seed)
+                self.log = log
+
+            def rank(self, emitter, archive, data, add_info):
+                self.log.append(("rk.rank", emitter, archive, {k: np.array(v, copy=True) for k, v in data.items()},
+                                 {k: np.array(v, copy=True) for k, v in add_info.items()}))
+                out = super().rank(emitter, archive, data, add_info)
+                self.log.append(("rk.ret", np.array(out[0], copy=True), np.array(out[1], copy=True)))
+                return out
+
+            def reset(self, emitter, archive):
+                # a reset draws a standard normal direction and scales it with the archive's extent *now*
+                want = self._shadow.standard_normal(archive.measure_dim) * (
+                    np.array(archive.upper_bounds) - np.array(archive.lower_bounds))
+                super().reset(emitter, archive)
+                self.log.append(("rk.reset", emitter, archive, want, np.array(self.target_measure_dir, copy=True)))
+        return Rec
+
+    _CLASSES.update(rd=recording(RandomDirectionRanker), rd2=recording(TwoStageRandomDirectionRanker))
 
     class SpyGradOpt(GOB):
         # pylint: disable = super-init-not-called
@@ -448,10 +481,47 @@ def gen_bounds(rng, dim, layout=None):
 
 
 def with_bounds(rng, case, p):
-    """EvolutionStrategyEmitter only (the arborescence emitter rejects bounds)"""
+    """variants sprinkled over every stratum: bounds (EvolutionStrategyEmitter only, the arborescence emitter
+    rejects them), an unstructured archive with the real random-direction rankers, an optimizer that settles on
+    a batch size other than the one requested"""
     if case["kind"] == "es" and rng.random() < p:
         case["bounds"] = gen_bounds(rng, case["dim"])
+    r = rng.random()
+    if r < 0.15:
+        case["arch"] = rng.choice(["prox", "prox-lc"])
+        case["ranker"] = rng.choice(["rd", "2rd", "rd", "2rd", "spy"])
+    r = rng.random()
+    if r < 0.15:
+        case["req_batch"] = rng.choice([b for b in (1, 2, 3, 4, 6, 8, 2 * case["batch"], case["batch"] // 2 or 5)
+                                        if b != case["batch"]])
     return case
+
+
+def make_gen_proximity(max_iters):
+    """ProximityArchive (with and without local competition) + the real 'rd' / '2rd' rankers: elites are added
+    between the tells so that the archive's bounds move; every restart must reset the ranker against the archive
+    as it is then"""
+    def gen(rng):
+        kind = rng.choice(["es", "gae"])
+        rule = rng.choice(["basic", "no_improvement", 1, 2, 3])
+        case = gen_history(rng, kind, rng.choice(SELS), rule, rng.randint(1, 6), rng.randint(3, max_iters),
+                           p_stop=0.35 if rule == "basic" else 0.15, churn=0.75)
+        case["arch"] = rng.choice(["prox", "prox-lc"])
+        case["ranker"] = rng.choice(["rd", "2rd"])
+        return case
+    return gen
+
+
+def make_gen_optbatch(max_iters):
+    """the optimizer settles on a batch size other than the requested one (as pycma does with popsize_factor):
+    `batch` is what it reports and emits, `req_batch` what the constructor was given"""
+    def gen(rng):
+        bs = rng.randint(1, 8)
+        case = gen_history(rng, rng.choice(["es", "gae"]), rng.choice(["mu", "mu", "filter"]), rng.choice(RULES), bs,
+                           rng.randint(2, max_iters))
+        case["req_batch"] = rng.choice([b for b in (1, 2, 3, 5, 6, 8, 12, 2 * bs, bs // 2 or 7) if b != bs])
+        return case
+    return gen
 
 
 def make_gen_histories(kind, max_iters):
@@ -595,17 +665,33 @@ def exc_name(e):
 
 
 def run_case(case):
-    from ribs.archives import GridArchive
+    from ribs.archives import GridArchive, ProximityArchive
     from ribs.emitters import EvolutionStrategyEmitter, GradientArborescenceEmitter
     cls = spy_classes()
     kind, sel, rule, bs, dim = case["kind"], case["sel"], case["rule"], case["batch"], case["dim"]
     dtype = np.float32 if case.get("f32") else np.float64
     drv = driver()
 
-    arch = GridArchive(solution_dim=dim, dims=[3, 3], ranges=[(0, 3), (0, 3)], seed=case.get("aseed", 0),
-                       dtype=dtype)
+    akind = case.get("arch", "grid")
+    rkind = case.get("ranker", "spy")
+    if akind == "grid":
+        arch = GridArchive(solution_dim=dim, dims=[3, 3], ranges=[(0, 3), (0, 3)], seed=case.get("aseed", 0),
+                           dtype=dtype)
+    else:
+        # unstructured archive: its measure-space bounds move as elites are added
+        arch = ProximityArchive(solution_dim=dim, measure_dim=MEASURE_DIM, k_neighbors=1, novelty_threshold=1.0,
+                                local_competition=akind == "prox-lc", initial_capacity=4,
+                                seed=case.get("aseed", 0), dtype=dtype)
+        # the random-direction rankers need the archive's bounds already at construction
+        arch.add_single(elite_sol(998, dim, dtype), 0.0, [0.0, 0.0])
+
+    def meas_of(op):
+        if akind == "grid":
+            return [op["cell"][0] + 0.5, op["cell"][1] + 0.5]
+        # every token at its own place (always novel), stretching the archive anisotropically
+        return [2.0 * op["tok"] * (1 + op["cell"][0]), 2.0 * op["cell"][1]]
     log = []
-    script = {"stop": False, "perm": list(range(bs)), "vals": [0] * bs}
+    script = {"stop": False, "perm": list(range(bs)), "vals": [0] * bs, "actual_batch": bs}
     made = {}
 
     def mk_es(**kw):
@@ -613,7 +699,7 @@ def run_case(case):
         return made["es"]
 
     def mk_rk(seed=None):
-        made["rk"] = cls["rk"](seed, log=log, script=script)
+        made["rk"] = cls[{"spy": "rk", "rd": "rd", "2rd": "rd2"}[rkind]](seed, log=log, script=script)
         return made["rk"]
 
     def mk_go(**kw):
@@ -630,15 +716,18 @@ def run_case(case):
         rule_arg = getattr(np, case["rule_np"])(rule)  # the same integer N, given as a fixed-width NumPy integer
     gopt = case.get("gopt", "spy")
     spy_go = gopt == "spy"
+    # the batch size asked for; the optimizer may settle on another one (`batch`), which it reports and emits
+    req_bs = case.get("req_batch") or bs
+    late_fail = None
     try:
         if kind == "es":
             em = EvolutionStrategyEmitter(arch, x0=x0, sigma0=1.0, ranker=mk_rk, es=mk_es, selection_rule=sel,
-                                          restart_rule=rule_arg, bounds=bounds_arg, batch_size=bs, seed=1)
+                                          restart_rule=rule_arg, bounds=bounds_arg, batch_size=req_bs, seed=1)
         else:
             em = GradientArborescenceEmitter(arch, x0=x0, sigma0=1.0, lr=0.5, ranker=mk_rk, es=mk_es,
                                              grad_opt=mk_go if spy_go else gopt, selection_rule=sel,
                                              restart_rule=rule_arg,
-                                             normalize_grad=bool(case.get("normalize")), batch_size=bs, seed=1)
+                                             normalize_grad=bool(case.get("normalize")), batch_size=req_bs, seed=1)
     except Exception as e:  # pylint: disable=broad-except
         err = exc_name(e)
     m = drv.ask(f"new kind={kind} sel={sel if sel else '<empty>'} rule={rule if rule != '' else '<empty>'} batch={bs}")
@@ -662,7 +751,13 @@ def run_case(case):
     if em.itrs != 0 or em.restarts != 0:
         return Failure("oracle", f"construct: fresh emitter has itrs={em.itrs} restarts={em.restarts}")
     if em.batch_size != bs:
-        return Failure("oracle", f"construct: batch_size {em.batch_size} != {bs}")
+        # (kept for the end: a wrong parent count on a later tell is the more telling failure)
+        late_fail = Failure("oracle", f"construct: emitter.batch_size={em.batch_size} but the optimizer reports "
+                                      f"(and emits) batches of {bs} (requested {req_bs})")
+    stat(f"archive:{akind}")
+    stat(f"ranker:{rkind}")
+    if req_bs != bs:
+        stat("optimizer-adjusts-batch")
 
     es, rk = made["es"], made["rk"]
     del log[:]  # constructor-time resets are not part of the property
@@ -692,7 +787,10 @@ def run_case(case):
 
     def tell_args(rows, st):
         n = len(rows)
-        return (rows.copy(), np.zeros(n), np.zeros((n, MEASURE_DIM)),
+        # measures with some spread so that the real random-direction rankers have something to project
+        meas = np.array([[float((7 * i + 3 * n_ask) % 5) - 0.5 * i, float((i * 3 + n_ask) % 4)] for i in range(n)]
+                        ).reshape(n, MEASURE_DIM)
+        return (rows.copy(), np.zeros(n), meas,
                 {"status": np.array(st, dtype=np.int32), "value": np.zeros(len(st))})
 
     have_jac = False
@@ -702,7 +800,7 @@ def run_case(case):
         where = f"op#{step} {o}"
         if o == "add":
             arch.add_single(elite_sol(op["tok"], dim, dtype, bool(op.get("neg"))), float(op["obj"]),
-                            [op["cell"][0] + 0.5, op["cell"][1] + 0.5])
+                            meas_of(op))
             continue
         if o == "clear":
             arch.clear()
@@ -782,11 +880,16 @@ def run_case(case):
                 em.tell(*tell_args(rows, st))
             except Exception as e:  # pylint: disable=broad-except
                 return Failure("oracle", f"{where}: well-formed tell raised {exc_name(e)}: {e}")
-            calls = log[n0:]
+            rets = [c for c in log[n0:] if c[0] == "rk.ret"]
+            calls = [c for c in log[n0:] if c[0] != "rk.ret"]
             del log[:]  # (long histories: keep the log short)
+            if len(rets) == 1:
+                # what the ranker actually returned (the script for the spy ranker, the real ranking otherwise)
+                perm, vals = [int(x) for x in rets[0][1]], rets[0][2].tolist()
             exp_itrs += 1
             new = sum(1 for s in st if s != 0)
-            npar = expected_parents(sel, bs, st)
+            # 'mu': half of the batch the emitter last emitted
+            npar = expected_parents(sel, len(rows), st)
             fires = rule_fires(rule, exp_itrs, st)
             should = stop or fires
             exp_restarts += int(should)
@@ -851,6 +954,14 @@ def run_case(case):
                                              f"point is stepped away from the elite again (calls {names})")
                 if rresets[0][1] is not em or rresets[0][2] is not arch:
                     return Failure("oracle", f"{where}: ranker.reset received a foreign emitter / archive")
+                if rresets[0][3] is not None:
+                    stat("real-ranker-reset-checked")
+                    if not same_bits(rresets[0][3], rresets[0][4]):
+                        return Failure("oracle", f"{where}: after the restart the ranker is not reset for the archive "
+                                                 f"as it is now: target_measure_dir={rresets[0][4].tolist()}, a reset "
+                                                 f"against the current bounds {np.array(arch.lower_bounds).tolist()}"
+                                                 f"..{np.array(arch.upper_bounds).tolist()} gives "
+                                                 f"{rresets[0][3].tolist()}")
                 if kind == "es":
                     centre = oresets[0][1]
                 else:
@@ -933,7 +1044,7 @@ def run_case(case):
             if obs_impl != obs_model:
                 diff = {k: (obs_impl[k], obs_model[k]) for k in obs_impl if obs_impl[k] != obs_model[k]}
                 return pending or Failure("corr", f"{where}: impl/model differ on {diff}")
-    return pending
+    return late_fail or pending
 
 
 # --------------------------------------------------------------------------
@@ -955,6 +1066,10 @@ def run(ctx):
                 nontrivial=nontrivial, time_budget=tb(4))
     ctx.explore("bounded-emitter", make_gen_bounded(mi), run_case, ctx.n(140, 3000),
                 nontrivial=nontrivial, time_budget=tb(4))
+    ctx.explore("proximity-rd-rankers", make_gen_proximity(mi), run_case, ctx.n(120, 2500),
+                nontrivial=nontrivial, time_budget=tb(4))
+    ctx.explore("optimizer-batch", make_gen_optbatch(mi), run_case, ctx.n(100, 2000),
+                nontrivial=nontrivial, time_budget=tb(3))
     ctx.explore("numpy-int-rules", make_gen_npint(not ctx.quick), run_case, ctx.n(48, 600),
                 nontrivial=nontrivial, time_budget=tb(8))
     ctx.explore("rejections", gen_rejections, run_case, ctx.n(80, 1500),
